@@ -3,6 +3,7 @@ use crate::rng::Rng;
 use crate::{Args, Case};
 
 pub mod control;
+pub mod decide;
 pub mod misc;
 pub mod pair;
 pub mod session;
@@ -16,6 +17,7 @@ pub fn generate(suite: &str, rng: &mut Rng, thorough: bool) -> (&'static str, Ve
         "control_cut" => ("E2C", control::generate(rng, thorough, true)),
         "pair" => ("E2C", pair::generate(rng, thorough)),
         "backlog" => ("E3C", session::generate_backlog(rng, thorough)),
+        "decide" => ("E3C", decide::generate(rng, thorough)),
         "emit" | "signals" | "wdgram" | "client" | "credit" => ("E2C", misc::generate(rng, thorough, suite)),
         "streams" | "foreign" | "unknown_uni" | "stall" | "pace" | "requests" => ("E2C", streams::generate(rng, thorough, suite)),
         "trace" | "cell" => ("E3C", trace::generate(rng, thorough, suite)),
@@ -35,6 +37,7 @@ pub async fn exec(f: u32, args: &Args) -> Args {
         651 => misc::exec_dgram(args).await,
         661 => misc::exec_client(args).await,
         671 => pair::exec(args).await,
+        673 => decide::exec(args).await,
         681 => trace::exec_681(args).await,
         691 => trace::exec_691(args).await,
         _ => panic!("unknown function id {}", f),
@@ -52,6 +55,7 @@ pub fn oracle(f: u32, args: &Args, out: &Args) -> Option<(&'static str, String)>
         621 => streams::oracle(args, out),
         631 | 632 | 641 | 651 | 661 => misc::oracle(f, args, out),
         671 => pair::oracle(args, out),
+        673 => decide::oracle(args, out),
         681 => trace::oracle_681(args, out),
         691 => trace::oracle_691(args, out),
         _ => None,
